@@ -130,7 +130,7 @@ func (s *SuffrageStateBuilder) buildBatch(
 
 	newprev := localstate
 	var previous base.State
-	var proofs []base.SuffrageProof
+	var all, proofs []base.SuffrageProof
 	var provelock sync.Mutex
 
 	if err := util.BatchWork(
@@ -139,6 +139,7 @@ func (s *SuffrageStateBuilder) buildBatch(
 		s.batchlimit,
 		func(_ context.Context, last uint64) error {
 			previous = newprev
+			all = append(all, proofs...) // NOTE keeps the proofs of the finished batch
 
 			switch r := (last + 1) % uint64(s.batchlimit); {
 			case r == 0:
@@ -182,7 +183,7 @@ func (s *SuffrageStateBuilder) buildBatch(
 		return nil, e.Wrap(err)
 	}
 
-	return proofs, nil
+	return append(all, proofs...), nil
 }
 
 func (*SuffrageStateBuilder) prove(
